@@ -155,8 +155,8 @@ class SvsInst:
                 self.timer_rst_event.set()
             else:
                 self.aggregate(rsv_dict)
-        else:
-            # Reset sync timer
+        elif self.next_sync_timing > time.time():
+            # Reset sync timer (an announcement that is already due - a publication made a moment ago - stays due)
             self.next_sync_timing = time.time() + self.sample_sync_timer()
             self.timer_rst_event.set()
 
